@@ -14,7 +14,9 @@ ASSUMPTIONS = [
     "is high (true of USBSetupDecoder by construction: one statement block assigns them all); checked at run time on the complete "
     "device (the specification monitor reports a broken assumption as `None`, and the model-as-monitor needs no assumption)",
     "`the status stage of the request has been answered` is the control endpoint's status_requested strobe reaching the handler while the "
-    "SET_ADDRESS / SET_CONFIGURATION request is pending (the handler then sends the zero-length status packet in that very cycle); "
+    "SET_ADDRESS / SET_CONFIGURATION request is pending (the handler then sends the zero-length status packet in that very cycle) AND "
+    "while the token being answered is addressed to the control endpoint (tokenizer.endpoint = 0): the monitors on the control-endpoint "
+    "and complete-device targets do not count a status_requested strobe raised for another endpoint's token; "
     "`no other transaction since` is: no TokenDetectorInterface.new_token since (tokens are filtered by device address before they reach "
     "this interface, so traffic addressed to OTHER DEVICES on a shared full-speed bus is outside this statement)",
     "request handlers other than the standard one: none may drive address_changed/config_changed (USBRequestHandlerMultiplexer selects "
@@ -25,7 +27,9 @@ ASSUMPTIONS = [
     "get_descriptor_handler_submodule; the FSM elaborated is /repo's); R over an explicit product alphabet of its inputs (listed in the "
     "obligation); (handler_full) the unmodified class, correspondence and specification monitor on simulator traces only; (regs) the real USBDevice with two stub endpoints and a stub reset "
     "sequencer (so that the endpoints' write strobes and bus_reset are free inputs), sliced to the registers; (device_utmi) the complete "
-    "real USBDevice with standard control endpoint and a USBSignalInEndpoint on endpoint 1, driven over UTMI by a scripted host",
+    "real USBDevice with standard control endpoint, a USBSignalInEndpoint on endpoint 1 (always has data), a USBStreamInEndpoint on endpoint 2 "
+    "(no data: NAKs) and a USBStreamOutEndpoint on endpoint 3, driven over UTMI by a scripted host that runs every kind of foreign transaction "
+    "(IN+ACK, IN without ACK, NAKed IN, OUT+DATA ACKed / NAKed, PING) between the SETUP and the status stage and after a lost status ACK",
     "the model is the behaviour that satisfies the property; the unchanged tree commits the register write on ANY handshakes_in.ack "
     "(findings/C08-ack-any-endpoint.*) and keeps a stale request pending across a new SETUP (C07's finding, findings/C07-fresh-setup.diff)",
 ]
@@ -189,7 +193,7 @@ def mk_regs():
     return t
 
 
-DEV_INS = ["rx_active", "rx_valid", "rx_data", "line_state", "session_end", "connect", "tx_ready", "signal"]
+DEV_INS = ["rx_active", "rx_valid", "rx_data", "line_state", "session_end", "connect", "tx_ready", "signal", "out_ready"]
 
 
 def build_device():
@@ -199,11 +203,16 @@ def build_device():
     u = UTMIInterface()
     d = USBDevice(bus=u)
     ctl = d.add_standard_control_endpoint(descriptors())
-    sig = USBSignalInEndpoint(width=8, endpoint_number=1, endianness="little")
-    d.add_endpoint(sig)
+    from luna.gateware.usb.usb2.endpoints.stream import USBStreamInEndpoint, USBStreamOutEndpoint
+    sig = USBSignalInEndpoint(width=8, endpoint_number=1, endianness="little")      # IN endpoint that always has data queued
+    nak_in = USBStreamInEndpoint(endpoint_number=2, max_packet_size=8)               # IN endpoint without data: NAKs
+    out_ep = USBStreamOutEndpoint(endpoint_number=3, max_packet_size=8)              # OUT endpoint (ACK / NAK / PING)
+    for e in (sig, nak_in, out_ep):
+        d.add_endpoint(e)
     h = ctl._request_handlers[0]
     ins = [("rx_active", u.rx_active), ("rx_valid", u.rx_valid), ("rx_data", u.rx_data), ("line_state", u.line_state),
-           ("session_end", u.session_end), ("connect", d.connect), ("tx_ready", u.tx_ready), ("signal", sig.signal)]
+           ("session_end", u.session_end), ("connect", d.connect), ("tx_ready", u.tx_ready), ("signal", sig.signal),
+           ("out_ready", out_ep.stream.ready)]
     outs = [("active_address", ctl.interface.active_address), ("active_config", ctl.interface.active_config),
             ("s_recv", h.interface.setup.received), ("s_type", h.interface.setup.type), ("s_req", h.interface.setup.request),
             # tokens and handshakes as the DEVICE delivers them to the control endpoint (EndpointInterface), not as the control
@@ -211,7 +220,9 @@ def build_device():
             ("s_value", h.interface.setup.value), ("new_token", ctl.interface.tokenizer.new_token),
             ("status_req", h.interface.status_requested), ("ack", ctl.interface.handshakes_in.ack), ("bus_reset", d.reset_detected),
             # wire level, for the host script and for the reader of a replay (not read by the monitors)
-            ("tx_valid", u.tx_valid), ("tx_data", u.tx_data)]
+            ("tx_valid", u.tx_valid), ("tx_data", u.tx_data),
+            # the endpoint of the token being answered: status_requested counts as the status stage only for endpoint 0
+            ("tok_endpoint", ctl.interface.tokenizer.endpoint)]
     return d, ins, outs
 
 
@@ -277,7 +288,8 @@ class Host:
         self.rng = rng
         self.trace = []
         self.addr = 0            # the address the host believes the device has
-        self.base = dict(rx_active=0, rx_valid=0, rx_data=0, line_state=1, session_end=0, connect=1, tx_ready=1, signal=0x5a)
+        self.base = dict(rx_active=0, rx_valid=0, rx_data=0, line_state=1, session_end=0, connect=1, tx_ready=1, signal=0x5a, out_ready=1)
+        self.out_tog = 0         # the host's DATA toggle for OUT endpoint 3
 
     def run(self, script):
         from amaranth.sim import Simulator
@@ -354,6 +366,19 @@ class Host:
         await self.send(datapkt(P[pid], data))
         return await self.recv()
 
+    async def out3(self, data, out_ready=1):
+        """OUT + DATA on endpoint 3 with the host's running toggle; the toggle advances on ACK"""
+        self.base["out_ready"] = out_ready
+        r = await self.out_xact(3, data, pid="DATA1" if self.out_tog else "DATA0")
+        if r and r[0] == pidb(P["ACK"]):
+            self.out_tog ^= 1
+        return r
+
+    async def ping(self, ep, addr=None):
+        a = self.addr if addr is None else addr
+        await self.send(token(P["PING"], a, ep))
+        return await self.recv()
+
     async def bus_reset(self):
         if self.rng.random() < 0.5:
             await self.idle(self.rng.choice([1, 2, 5]), session_end=1)
@@ -368,17 +393,38 @@ def device_script(rng, kind):
     async def other_traffic(h, p=0.6):
         while rng.random() < p:
             r = rng.random()
-            if r < 0.7:
-                await h.in_xact(1, ack=rng.random() < 0.85)
-            elif r < 0.85:
-                await h.in_xact(rng.choice([2, 3]), ack=True)          # endpoint without a function: no answer
+            if r < 0.45:
+                await h.in_xact(1, ack=rng.random() < 0.85)              # IN with queued data (+ ACK)
+            elif r < 0.58:
+                await h.in_xact(2, ack=True)                            # IN on an endpoint without data: NAK
+            elif r < 0.74:
+                await h.out3([rng.randrange(256) for _ in range(rng.choice([0, 1, 8]))], out_ready=int(rng.random() < 0.7))   # OUT + DATA + handshake
+            elif r < 0.82:
+                await h.ping(3)                                         # PING
+            elif r < 0.88:
+                await h.in_xact(rng.choice([5, 9]), ack=True)           # endpoint without a function: no answer
             else:
                 await h.send([pidb(P["ACK"])])                         # stray handshake
             await h.idle(rng.choice([0, 1, 3]))
 
-    async def set_request(h, req, value, interleave=True, lose_ack=False, length=0):
+    async def every_kind(h):
+        """one transaction of every kind on the other endpoints, in random order"""
+        kinds = ["in_ack", "in_noack", "in_nak", "out", "out_nak", "ping"]
+        rng.shuffle(kinds)
+        for kd in kinds:
+            if kd == "in_ack": await h.in_xact(1, ack=True)
+            elif kd == "in_noack": await h.in_xact(1, ack=False)
+            elif kd == "in_nak": await h.in_xact(2, ack=True)
+            elif kd == "out": await h.out3([rng.randrange(256) for _ in range(rng.choice([1, 8]))], out_ready=1)
+            elif kd == "out_nak": await h.out3([rng.randrange(256) for _ in range(8)], out_ready=0)
+            else: await h.ping(3)
+            await h.idle(rng.choice([0, 1, 3]))
+
+    async def set_request(h, req, value, interleave=True, lose_ack=False, length=0, force=False):
         await h.setup(0x00, req, value=value, length=length)
         await h.idle(rng.choice([1, 2, 4]))
+        if force:
+            await every_kind(h)
         if interleave:
             await other_traffic(h)
         data = await h.in_xact(0, ack=not lose_ack)
@@ -407,18 +453,19 @@ def device_script(rng, kind):
             reqs = [(5, rng.choice([0x31, 0x1B1, 0x55])), (9, rng.choice([1, 0xB1, 0x1FF]))]
             if rng.random() < 0.5: reqs.reverse()
             for req, value in reqs:
-                await set_request(h, req, value, interleave=False, lose_ack=True)
+                await set_request(h, req, value, interleave=rng.random() < 0.5, lose_ack=True)
                 await h.in_xact(1, ack=True)
                 await h.idle(rng.choice([1, 3]))
+                await every_kind(h)                 # STATUS_IN lingers after the lost ACK: every kind of foreign transaction
                 await other_traffic(h, 0.4)
                 if rng.random() < 0.5:    # the host retries the status stage and this time its ACK arrives
                     data = await h.in_xact(0, ack=True)
                     if len(data) >= 3 and req == 5: h.addr = value & 0x7f
             return
         if kind == "interleave":          # the case the unit tests never produce
-            await set_request(h, 5, rng.choice([0x31, 0x1B1, 0x7F, 0x01]))
+            await set_request(h, 5, rng.choice([0x31, 0x1B1, 0x7F, 0x01]), force=True)
             await other_traffic(h, 0.5)
-            await set_request(h, 9, rng.choice([1, 0xB1, 0x1FF]))
+            await set_request(h, 9, rng.choice([1, 0xB1, 0x1FF]), force=True)
             await other_traffic(h, 0.5)
             return
         for _ in range(rng.randint(2, 5)):
